@@ -469,6 +469,13 @@ func (v *c13Verifier) one(r gomatrixserverlib.VerifyJSONRequest) error {
 }
 
 // c13DB is a scripted KeyDatabase for the library's own KeyRing.
+// the last body-carrying request that was accepted in this process, and what it reported then
+var (
+	c13Earlier        *FederationRequest
+	c13EarlierContent string
+	c13EarlierURI     string
+)
+
 // c13FailingVerifier fails altogether.
 type c13FailingVerifier struct{}
 
@@ -1138,6 +1145,18 @@ func c13Check(ctx *vfCtx, c c13Case) {
 	if accepted != (got != nil) {
 		ctx.Fail("C13/inconsistent-result", "VerifyHTTPRequest returned code %d with request nil=%v", resp.Code, got == nil)
 		return
+	}
+	// what a request accepted EARLIER in this process reports has not changed since (its body is its own,
+	// whatever was read after it)
+	if c13Earlier != nil {
+		if string(c13Earlier.Content()) != c13EarlierContent || c13Earlier.RequestURI() != c13EarlierURI {
+			ctx.Fail("C13/accepted-request-changed-by-later-requests", "a request accepted earlier reported content %q and URI %q then; after later requests were read it reports %q and %q", c13EarlierContent, c13EarlierURI, c13Earlier.Content(), c13Earlier.RequestURI())
+			c13Earlier = nil
+			return
+		}
+	}
+	if accepted && c.HasBody {
+		c13Earlier, c13EarlierContent, c13EarlierURI = got, string(got.Content()), got.RequestURI()
 	}
 	if accepted {
 		ctx.Class("outcome/accepted")
